@@ -7,6 +7,7 @@ import (
 	"github.com/orbs-network/lean-helix-go/spec/types/go/primitives"
 	"github.com/orbs-network/lean-helix-go/spec/types/go/protocol"
 
+	"verif/ev"
 	"verif/fakes"
 	"verif/ref"
 )
@@ -45,6 +46,8 @@ type NRun struct {
 	Accepted     []bool // per cand step: did it have an effect
 	Mutated      []int  // per cand step: number of mutations applied
 	CandKinds    []string
+	Resyncs      int
+	LeaderJudged []string // C18: per judged valid proposal, how the node had entered the height and whether the view was 0
 }
 
 // NewNWorld builds a world in which only Me is a real node.
@@ -75,6 +78,21 @@ func RunNCase(c NCase) *NRun {
 		r.step(st)
 	}
 	return r
+}
+
+// enteredBy says how the node got to its current height (for messages).
+func (r *NRun) enteredBy() string { return r.enteredByAt(r.Me.H()) }
+
+func (r *NRun) enteredByAt(h uint64) string {
+	if h == 1 {
+		return "start"
+	}
+	for _, cm := range r.Me.Commits {
+		if cm.H+1 == h {
+			return "own commit"
+		}
+	}
+	return "node sync"
 }
 
 func (r *NRun) h() uint64 {
@@ -112,17 +130,40 @@ func (r *NRun) step(st NStep) {
 		w.Apply(Action{K: "timeout", Node: me.Idx})
 	case "propose": // a valid proposal for view st.View reaches the node: PREPREPARE in view 0, a valid NEW_VIEW otherwise
 		if sp := r.validProposal(st.View, st.A); sp != nil {
+			h0, v0, had := r.h(), r.v(), r.storedHash(st.View) != nil
+			for _, sm := range me.Sent { // a node that is prepared holds a proof of its own; the scripted votes of the others may then
+				// certify another block for the same earlier view (all of them are the harness's), which it rightly refuses
+				if sm.Meta.Union == UC && sm.Meta.H == h0 {
+					had = true
+				}
+			}
 			r.deliverSpec("valid-proposal", sp)
+			// C18, behavioural: the member the reference places at (view mod n) IS the leader for this node too, whatever way the
+			// node entered the height: its valid proposal for a view the node has not left and holds no proposal for is accepted
+			if st.A != 0 {
+				had = true // votes with scripted proofs: such a proof cannot always be built validly without the node's own PREPARE
+			}
+			if w.Cfg.Focus == "C18" && w.Viol == nil && !had && st.View >= v0 {
+				r.LeaderJudged = append(r.LeaderJudged, fmt.Sprintf("%s:view0=%v", r.enteredByAt(h0), st.View == 0))
+			}
+			if w.Cfg.Focus == "C18" && w.Viol == nil && !had && st.View >= v0 && me.H() == h0 && r.storedHash(st.View) == nil {
+				w.Viol = &ev.Violation{Property: "C18", Kind: "proposal-of-reference-leader-rejected", Replayer: "N",
+					Detail: fmt.Sprintf("node %d at height %d view %d did not accept the valid proposal for view %d signed by member %d = committee[view mod n] (height entered by %s)", me.Idx, h0, v0, st.View, w.LeaderIdx(h0, st.View), r.enteredBy())}
+			}
 		}
 	case "prepares": // PREPAREs of the others for the proposal the node holds in st.View, enough for a quorum
 		hash := r.storedHash(st.View)
 		if hash == nil {
 			return
 		}
-		leader := w.LeaderIdx(r.h(), st.View)
+		hs := r.h()
+		leader := w.LeaderIdx(hs, st.View)
 		for _, o := range r.others() {
 			if o == leader {
 				continue
+			}
+			if r.h() != hs {
+				break // the node completed the height in the middle of the script (it held early COMMITs): the rest is for a height it has left
 			}
 			ref_ := a.ref(TP, r.h(), st.View, hash)
 			r.deliverSpec("valid-prepare", &MsgSpec{Union: UP, Ref: ref_, Sender: a.signedRef(o, ref_)})
@@ -135,7 +176,11 @@ func (r *NRun) step(st NStep) {
 		if hash == nil {
 			return
 		}
+		hs := r.h()
 		for _, o := range r.others() {
+			if r.h() != hs {
+				break
+			}
 			ref_ := a.ref(TC, r.h(), st.View, hash)
 			r.deliverSpec("valid-commit", &MsgSpec{Union: UC, Ref: ref_, Sender: a.signedRef(o, ref_), Share: a.share(o, r.h())})
 		}
@@ -143,6 +188,8 @@ func (r *NRun) step(st NStep) {
 		r.CommitRound()
 	case "sync": // UpdateState with a block st.A heights above the node's current one (0: the current height's block; >0: heights are skipped)
 		r.SyncAhead(uint64(st.A))
+	case "resync": // the host repeats UpdateState with the block the node's current height was started from (or an older one of its own)
+		r.Resync(st.A)
 	case "cand":
 		r.nextH = st.Next
 		sp := r.candidate(st)
@@ -1041,6 +1088,43 @@ func (r *NRun) SyncAhead(ahead uint64) {
 	w.Mon.onSync(n, &Commit{H: h, Block: b}, pre)
 }
 
+// Resync hands the node a block it already has: the one its current height was started from (back == 0) or an earlier one of
+// its own commits. Such an UpdateState changes nothing; whatever the node emits afterwards is judged as before.
+func (r *NRun) Resync(back int) {
+	w := r.W
+	n := r.Me
+	nm := w.Mon.per[n.Idx]
+	h := r.h()
+	var c *Commit
+	for k := range n.Commits {
+		if n.Commits[k].H+1 == h || (back > 0 && n.Commits[k].H < h && c == nil) {
+			c = &n.Commits[k]
+		}
+	}
+	if c == nil {
+		if b := nm.blockFor[h]; b != nil && h > 1 { // entered by sync: the very same block again
+			c = &Commit{H: h - 1, Block: b, Proof: nm.proofFor[h]}
+		}
+	}
+	if c == nil {
+		return
+	}
+	n.Inbox = append(n.Inbox, InEvent{Kind: "sync", Block: c.Block, Proof: c.Proof})
+	pre := w.Mon.pre(n)
+	spi := w.Mon.spiSnap(n)
+	w.guard(n, func() {
+		n.VN.Gc()
+		if n.VN.MainUpdateState(c.Block, c.Proof) {
+			n.VN.WorkerUpdateState(c.Block, c.Proof)
+		}
+	})
+	w.Mon.onSync(n, c, pre)
+	if c.H < pre.H {
+		w.Mon.staleSyncChangedNothing(n, c, pre, spi)
+	}
+	r.Resyncs++
+}
+
 // CommitRound plays the other members through one complete valid round at the node's current height.
 // It returns true if the node committed that height.
 func (r *NRun) CommitRound() bool {
@@ -1058,7 +1142,9 @@ func (r *NRun) CommitRound() bool {
 		}
 		if r.storedHash(r.v()) != nil {
 			r.step(NStep{K: "prepares", View: r.v()})
-			r.step(NStep{K: "commits", View: r.v()})
+			if len(r.Me.Commits) == before {
+				r.step(NStep{K: "commits", View: r.v()})
+			}
 		}
 		if len(r.Me.Commits) == before {
 			r.step(NStep{K: "timeout"})
